@@ -397,6 +397,8 @@ type interp struct {
 	paths []*Path
 	limit bool
 	steps int
+	// the frame on top is a helper outside the reference tree (see seeThroughAt)
+	calledFromNewHelper bool
 }
 
 type ival struct {
@@ -1988,7 +1990,7 @@ func (it *interp) doCall(st *state, fr *frame, in *ssa.Call) bool {
 		}
 	}
 	ev := it.callEvent(st, fr, cc, in)
-	if ev.Fn != nil && len(ev.Fn.Blocks) > 0 && (it.opts.Inline != nil && it.opts.Inline(ev.Fn, len(st.frames)) || it.seeThrough(ev.Fn, len(st.frames))) {
+	if ev.Fn != nil && len(ev.Fn.Blocks) > 0 && (it.opts.Inline != nil && it.opts.Inline(ev.Fn, len(st.frames)) || it.seeThroughAt(st, ev.Fn, len(st.frames))) {
 		it.pushFrame(st, ev, in, false)
 		return true
 	}
@@ -2079,6 +2081,7 @@ func (it *interp) pushFrame(st *state, ev *Event, call ssa.Instruction, fromDefe
 
 // execDeferred runs one deferred call at RunDefers.
 func (it *interp) execDeferred(st *state, fr *frame, d *Event) bool {
+	it.calledFromNewHelper = false
 	if d.Fn != nil && len(d.Fn.Blocks) > 0 && (it.opts.Inline != nil && it.opts.Inline(d.Fn, len(st.frames)) || it.seeThrough(d.Fn, len(st.frames))) {
 		it.pushFrame(st, d, d.Instr, true)
 		return true
@@ -2158,12 +2161,26 @@ func (p *Program) mayStore(fn *ssa.Function) map[string]bool {
 
 // seeThrough: a library function that is not an anchor of the reference tree (an extracted helper) is
 // transparent: it is inlined when it is loop-free and the inline depth is small.
+func (it *interp) seeThroughAt(st *state, fn *ssa.Function, depth int) bool {
+	it.calledFromNewHelper = false
+	if n := len(st.frames); n > 1 {
+		top := st.frames[n-1].fn
+		it.calledFromNewHelper = top.Parent() == nil && !knownFuncs[it.prog.rawName(top)] && it.prog.isLib(top)
+	}
+	return it.seeThrough(fn, depth)
+}
+
 func (it *interp) seeThrough(fn *ssa.Function, depth int) bool {
-	if depth > 4 || fn.Parent() != nil || !it.prog.isLib(fn) {
+	if depth > 4 || !it.prog.isLib(fn) {
 		return false
 	}
 	if knownFuncs[it.prog.rawName(fn)] {
 		return false
+	}
+	if fn.Parent() != nil {
+		// a closure the reference tree does not have, handed to a higher-order helper that is itself new (containsFunc(xs,
+		// func(x) bool {…})): the predicate is new code of the function that wrote it and is looked through where the helper calls it
+		return it.calledFromNewHelper
 	}
 	// loops of the helper are cut and unrolled like those of the function it was extracted from (per frame)
 	return true
